@@ -34,6 +34,20 @@ class Counting(np.ndarray):
         return super().__getitem__(idx)
 
 
+class BigInts:
+    """lift CPython's int<->str digit limit for the ORACLE's own conversions only; the implementation
+    is always called under the interpreter's default limit."""
+
+    def __enter__(self):
+        import sys
+        self.old = sys.get_int_max_str_digits()
+        sys.set_int_max_str_digits(0)
+
+    def __exit__(self, *a):
+        import sys
+        sys.set_int_max_str_digits(self.old)
+
+
 def parse_ok(out):
     """'ok a b c' -> ['a','b','c'] ; 'err X' -> None"""
     if out.startswith("ok"):
@@ -747,7 +761,10 @@ def C11(ctx):
     for it in range(ctx.n(200, 3000)):
         k = rng.choice([1, 2, 2, 3, 3, 4] if not ctx.thorough else [1, 2, 3, 4, 5, 6])
         n = 4 ** k
-        kind = rng.choice(["table", "kw", "local", "empty"])
+        kind = rng.choice(["table", "kw", "local", "empty", "sparse", "sparse"])
+        if kind == "sparse":
+            k = rng.choice([3, 4, 4, 5, 5, 6 if ctx.thorough else 5])
+            n = 4 ** k
         if kind == "local":
             run, gc, motifs = rand_cfg(rng, k)
             st, flt = proto.guarded(lambda: mk(k, run, gc, motifs))
@@ -757,6 +774,9 @@ def C11(ctx):
         else:
             p = 0.0 if kind == "empty" else rng.choice([0.02, 0.3, 0.6, 0.9, 1.0])
             table = "".join("1" if rng.random() < p else "0" for _ in range(n))
+            if kind == "sparse":          # one to three accepted k-mers among 4^k
+                ones = set(rng.sample(range(n), rng.choice([1, 1, 2, 3])))
+                table = "".join("1" if i in ones else "0" for i in range(n))
             flt = (KwFilter if kind == "kw" else proto.TableFilter)(table)
         st, res = proto.guarded(lambda: SW.find_vertices(k, flt))
         key = "fv %d %s" % (k, table)
@@ -852,6 +872,14 @@ def C13(ctx):
     for k in range(1, top + 1):
         n = 4 ** k
         vs = range(n) if k <= top else []
+        if k <= 4:
+            # build constrained graphs first: the arithmetic must not depend on what was built before
+            m = gen.rand_mask(rng, k, 0.5)
+            if any(m):
+                o = ctx.corr("cvg %d %s" % (k, "".join(map(str, m))))
+                if o != "ok " + proto.show_acc(gen.induced(k, m).rows()):
+                    ctx.fail("valid graph is not the induced shift sub-graph", k=k, observed=o[:200])
+                ctx.corr("ccg %d %s %d" % (k, "".join(map(str, m)), rng.choice([1, 2])))
         for v in list(vs)[ctx.part::ctx.nparts]:
             s = gen.kmer(v, k)
             exp_l = [gen.kmer_idx(s[1:] + c) for c in NUC]
@@ -956,17 +984,19 @@ def C15(ctx):
     rng = ctx.rng
 
     def one(s, d):
-        n = int(s)
-        carries = 0
-        for op, exp in (("add", str(n + d)), ("mul", str(n * d)), ("div", "%d %d" % (n // d, n % d) if d else "0 0"),
-                        ("sub", str(n - d) if n >= d else None)):
+        with BigInts():
+            n = int(s)
+            expected = (("add", str(n + d)), ("mul", str(n * d)), ("div", "%d %d" % (n // d, n % d) if d else "0 0"),
+                        ("sub", str(n - d) if n >= d else None))
+            longer = len(str(n + d)) > len(s)
+        for op, exp in expected:
             if exp is None:
                 continue
             key = "%s %s %d" % (op, s, d)
             o = ctx.corr(key)
             if o != exp:
                 ctx.fail("string arithmetic differs from integer arithmetic", line=key, observed=o[:120], expected=exp[:120])
-        carry = len(str(n + d)) > len(s) or (n % 10) + d >= 10 or (n % 10) < d
+        carry = longer or (n % 10) + d >= 10 or (n % 10) < d
         ctx.case("%s %d" % (s, d), carry or len(s) >= 9, "len>=9" if len(s) >= 9 else "short",
                  "carry/borrow" if carry else "plain", "d=%d" % d)
 
@@ -978,6 +1008,11 @@ def C15(ctx):
         for L in (1233, 5000):
             one("9" * L, 9)
             one("1" + "0" * L, 1)
+    if ctx.part == 0:
+        # lengths around CPython's 4300-digit int<->str conversion limit
+        for L in (4299, 4300, 4301, 4400):
+            one("".join(rng.choice("123456789") for _ in range(L)), rng.randrange(2, 10))
+            one("9" * L, rng.randrange(2, 10))
     for it in range(ctx.n(4000, 60000)):
         one(rand_number(rng), rng.randrange(10))
 
@@ -1009,15 +1044,19 @@ def C16(ctx):
     def number_case(n, L, base):
         if base == 2:
             exp = bits_token(oracle.bits_be(n, L))
-            o = ctx.corr("n2b %d %d" % (n, L))
+            with BigInts():
+                line = "n2b %d %d" % (n, L)
+            o = ctx.corr(line)
             if o != "ok %s | %s" % (exp, exp):
                 ctx.fail("L-bit rendering wrong", n=n, L=L, observed=o[:200])
         else:
             exp = tok(gen.kmer(n, L))
-            o = ctx.corr("n2d %d %d" % (n, L))
+            with BigInts():
+                line = "n2d %d %d" % (n, L)
+            o = ctx.corr(line)
             if o != "ok %s | %s" % (exp, exp):
                 ctx.fail("L-symbol DNA rendering wrong", n=n, L=L, observed=o[:200])
-        ctx.case("n %d %d %d" % (n, L, base), n > 0, "number")
+        ctx.case("n %d %d %d" % (n % 10 ** 30, L, base), n > 0, "number")
 
     top = 10 if ctx.thorough else 7
     for L in range(top + 1):
@@ -1034,6 +1073,14 @@ def C16(ctx):
         number_case(rng.randrange(2 ** W), W + rng.choice([0, 0, 1, 7]), 2)
         W = rng.choice([1, 3, 10, 32, 40])
         number_case(rng.randrange(4 ** W), W + rng.choice([0, 0, 1, 7]), 4)
+    if ctx.part == 0:
+        # string-typed path beyond CPython's 4300-digit int<->str limit (value 4^7150 - 1 has 4305 digits)
+        W = 7150
+        n = 4 ** W - 1 - rng.randrange(4 ** 20)
+        number_case(n, W, 4)
+        if ctx.thorough:
+            W = 14400
+            number_case(2 ** W - 1 - rng.randrange(2 ** 40), W, 2)
     o = ctx.corr("d2n ACGN")
     if o != "err ValueError | err ValueError":
         ctx.fail("foreign nucleotide not reported as ValueError", observed=o)
@@ -1108,16 +1155,35 @@ def C17(ctx):
     for it in range(ctx.n(60, 1500)):
         k = rng.choice([2, 2, 3] if not ctx.thorough else [2, 3, 3, 4])
         g = rng.choice([gen.rand_arc_subset, lambda r, kk: gen.rand_coding_graph(r, kk)[0], gen.rand_profile_graph])(rng, k)
+        if rng.random() < 0.3:
+            # uniform out-degree d on the arc-bearing vertices, some arcs leading to dead vertices
+            d = rng.choice([2, 3])
+            dead = set(rng.sample(range(4 ** k), rng.choice([1, 2, 3])))
+            g = gen.Graph(k, [0 if v in dead else sum(1 << j for j in rng.sample(range(4), d)) for v in range(4 ** k)])
         rows = np.array(g.rows(), dtype=int)
         comps, rho, ratio = spectral_info(g)
         caps = []
+        from fractions import Fraction
         for repeats in (1, 2, rng.choice([3, 5, 10])):
-            np.random.seed(rng.randrange(2 ** 31))
-            st, cap = proto.guarded(lambda: float(GZ.approximate_capacity(rows, repeats=repeats)), 60)
-            if st != "ok":
-                ctx.fail("approximate_capacity raised", acc=g.token(), repeats=repeats, observed=str(cap))
+            seed = rng.randrange(2 ** 31)
+            if repeats == 1:
+                vecs = [[Fraction(1)] * g.n]
+            else:
+                np.random.seed(seed)
+                vecs = [[Fraction(float(x)) for x in abs(np.random.random(size=(g.n,)))] for _ in range(repeats)]
+            line = "cap %s 10 500 %s %d" % (g.token(), ";".join(",".join("%d/%d" % (f.numerator, f.denominator) for f in v)
+                                                               for v in vecs), seed)
+            out = ctx.corr(line)
+            if not out.startswith("ok"):
+                ctx.fail("approximate_capacity raised", acc=g.token(), repeats=repeats, observed=out[:100])
                 continue
+            cap = float(out.split(" ")[1])
             caps.append((repeats, cap))
+            np.random.seed(seed)
+            st, plain = proto.guarded(lambda: float(GZ.approximate_capacity(rows, repeats=repeats)), 60)
+            if st != "ok" or plain != cap:
+                ctx.fail("capacity differs between process=False and process=True", acc=g.token(), repeats=repeats,
+                         observed=str(plain), expected=cap)
             if cap > 2.0 + 1e-12:
                 ctx.fail("capacity exceeds 2 bits per nucleotide", acc=g.token(), repeats=repeats, observed=cap)
         pre = len(comps) == 1 and ratio <= 0.9 and rho > 1e-9
@@ -1174,7 +1240,7 @@ def C18(ctx):
     import copy
     for it in range(ctx.n(40, 600)):
         k = rng.choice([1, 2, 3, 4] if not ctx.thorough else [1, 2, 3, 4, 5, 6])
-        seed = rng.randrange(2 ** 31)
+        seed = rng.choice([0, 0, 1, rng.randrange(2 ** 31), rng.randrange(2 ** 31)])
         snap = {n: copy.deepcopy(v) for n, v in vars(SW).items()
                 if not n.startswith("__") and isinstance(v, (int, float, str, list, dict, tuple, set))}
         t1 = SW.create_random_shuffles(k, random_seed=seed)
@@ -1319,13 +1385,22 @@ def C20(ctx):
             "remove_useless": (lambda vb=False: GZ.remove_useless(LM, 2, verbose=vb), "rmu %s 2" % proto.enc_lmap(LM)),
         }
         rng_t = rng.choice([1, 2])
+        # a second shared latter map, from an arbitrary arc subset (dead-end successors included)
+        g2 = gen.rand_arc_subset(rng, k, 0.45)
+        shared["lm2"] = {u: [succ(u, j, k) for j in g2.live(u)] for u in g2.vertices()}
+        LM2 = shared["lm2"]
+        v2 = rng.choice(g2.vertices() or [0])
+        calls["leaf_lm"] = (lambda vb=False: GZ.obtain_leaf_vertices(v2, 3, latter_map=LM2),
+                            "leafl %s %d 3" % (proto.enc_lmap(LM2), v2))
+        calls["scores_lm2"] = (lambda vb=False: GZ.calculate_intersection_score(LM2, observed_length=k, verbose=vb),
+                               "cis %s %d 1 1" % (proto.enc_lmap(LM2), k))
         # isolated results on private deep copies, computed first
         iso = {}
         for name in calls:
             priv = copy.deepcopy(shared)
-            A, B, T_, M, LM, F = (priv[x] for x in ("acc", "bits", "tbl", "mask", "lm", "flt"))
+            A, B, T_, M, LM, F, LM2 = (priv[x] for x in ("acc", "bits", "tbl", "mask", "lm", "flt", "lm2"))
             iso[name] = proto.guarded(lambda: canon(calls[name][0]()), 60)
-        A, B, T_, M, LM, F = (shared[x] for x in ("acc", "bits", "tbl", "mask", "lm", "flt"))
+        A, B, T_, M, LM, F, LM2 = (shared[x] for x in ("acc", "bits", "tbl", "mask", "lm", "flt", "lm2"))
         hist = [rng.choice(list(calls)) for _ in range(rng.choice([3, 5, 8, 12 if ctx.thorough else 8]))]
         for name in hist:
             before = {n: snapshot(x) for n, x in shared.items()}
